@@ -41,6 +41,12 @@ pub fn edge_keys() -> Vec<BigUint> {
         r2::hexn("FFFFFFFE00000000000000000000000000000000000000000000000000000001"),
         r2::hexn("8000000000000000000000000000000000000000000000000000000000000001"),
         (n - 1u32) >> 1,
+        // carry chains: all-ones limbs in the middle / low three limbs / a lone all-ones limb 1, and n - 2^128
+        r2::hexn("0000000000000000FFFFFFFFFFFFFFFFFFFFFFFFFFFFFFFF0000000000000000"),
+        (BigUint::one() << 192) - 1u32,
+        r2::hexn("00000000000000010000000000000000FFFFFFFFFFFFFFFF0000000000000000"),
+        r2::hexn("7FFFFFFFFFFFFFFFFFFFFFFFFFFFFFFFFFFFFFFFFFFFFFFFFFFFFFFFFFFFFFFFFF"),
+        n - (BigUint::one() << 128),
     ];
     v.retain(|d| !d.is_zero() && d < &(n - 1u32));
     v
